@@ -2,7 +2,7 @@
 import re, itertools
 from .lts import Scenario, UNKNOWN_ID
 
-EXC_CODE = {'SessionCloseError': 1, 'OperationError': 2, 'OSError': 3, 'TimeoutExpiredError': 4, 'TransportError': 5,
+EXC_CODE = {'SessionCloseError': 1, 'OperationError': 2, 'RPCError': 2, 'OSError': 3, 'TimeoutExpiredError': 4, 'TransportError': 5,
             'NetconfFramingError': 6, 'UnicodeDecodeError': 3}
 QUALIFY_OFF = ('junos', 'iosxr', 'huawei', 'h3c', 'sros')
 PROFILES = ['default', 'junos', 'csr', 'nexus', 'iosxr', 'iosxe', 'huawei', 'huaweiyang', 'alu', 'h3c', 'hpcomware', 'sros', 'ericsson', 'ciena']
@@ -33,9 +33,16 @@ def observed(sc):
         if o[0] == 'reply':
             rid2 = sc.rid_of_id.get(o[1])
             outs[rid] = [1, 100 + rid2 if rid2 is not None else 7]
+        elif o[0] == 'exc' and o[1] == 'XMLSyntaxError' and rpc.reply is not None and rpc.error is None:
+            # the wait ended with a reply stored (what the LTS records); the caller's own parse of it raised
+            m = re.search(r'message-id="([^"]+)"', rpc.reply.xml)
+            rid2 = sc.rid_of_id.get(m.group(1)) if m else None
+            outs[rid] = [1, 100 + rid2 if rid2 is not None else 7]
         elif o[0] == 'exc':
             outs[rid] = [2, EXC_CODE.get(o[1], 3)]
-    nidx = lambda x: int(re.search(r'<ev>n(\d+)</ev>', x).group(1))
+    def nidx(x):
+        m = re.search(r'<ev>n(\d+)</ev>', x)
+        return int(m.group(1)) if m else 0
     taken = []
     for key in sorted(sc.outcomes):
         o = sc.outcomes[key]
@@ -73,7 +80,7 @@ def server_acts(spec, kind):
     return [a for a in spec['server'] if a[0] == kind]
 
 def faulty(spec):
-    return spec.get('wfail') is not None or any(a[0] in ('eof', 'err', 'reply_noid', 'reply_unknown', 'dup', 'garbage', 'badutf8') for a in spec['server']) or \
+    return spec.get('wfail') is not None or any(a[0] in ('eof', 'err', 'reply_noid', 'reply_unknown', 'dup', 'garbage', 'badutf8', 'notif_bad') for a in spec['server']) or \
            any(op[0] == 'close' for ops in spec['clients'] for op in ops) or \
            (any(a[0] == 'other' for a in spec['server']) and spec.get('profile', 'default') in QUALIFY_OFF)
 
@@ -255,9 +262,98 @@ def oracle_c14(sc):
     for key, o in sc.outcomes.items():
         if o[0] == 'reply' and o[1] is None:
             return ('a payload without message-id was returned to a caller as its reply', 'nonreply_as_reply')
-    for e in effs:
-        if e[1] == 'dispatch' and 'this is <<< not xml' in e[2]:
-            break
+    return oracle_c14_hostile(sc)
+
+def _strip_decl(x):
+    return re.sub(r'^<\?xml[^>]*\?>', '', x.strip('\0'))
+
+def oracle_c14_hostile(sc):
+    """Histories 'hostile message, then later requests' (all profiles). From the property text only:
+    (1) a payload that is not XML (judged by an independent reader) never reaches a caller as data: not as the reply a
+        call returns / an asynchronous caller can parse, not as a notification returned by take_notification (nor queued
+        for it); a reply a caller holds is one the server sent for that request;
+    (2) such a payload is dropped, or fails the requests outstanding at that moment, or ends the session with an error -
+        it does not disturb anything later: a request whose creation began after every error broadcast had finished,
+        on a session nobody closed, is not failed; while the session lives every valid reply the server sends reaches
+        its request."""
+    from .lts import wellformed, NOTIF
+    spec = sc.spec
+    effs = sc.S.effects[:sc.n_effects]
+    sent = getattr(sc, 'sent_texts', [])
+    good_replies = {}                       # message-id -> texts sent as a well-formed reply for it
+    good_texts = {}                         # message-id -> well-formed messages sent that carry it
+    any_reply = set()
+    for ai, k, x in sent:
+        if k in ('reply', 'dup', 'reply_bad', 'other'):
+            m = re.search(r'message-id="([^"]+)"', x)
+            if m:
+                any_reply.add(m.group(1))
+                if k != 'reply_bad': good_texts.setdefault(m.group(1), set()).add(x)
+                if k in ('reply', 'dup'): good_replies.setdefault(m.group(1), set()).add(x)
+    good_notifs = {x for ai, k, x in sent if k == 'notif'}
+    # (1) replies
+    for key, rq in sc.rpcs:
+        rep = rq.reply
+        o = sc.outcomes.get(key)
+        if rep is not None:
+            raw = _strip_decl(rep.xml)
+            if rq.id not in any_reply:
+                return ('request %s holds a reply although the server never sent one for it: %r' % (rq.id, raw[:80]), 'reply_invented')
+            if not wellformed(raw):
+                if o and o[0] == 'reply' and len(o) > 3 and o[3] in ('returned', 'parsed'):
+                    return ('a payload that is not well-formed XML was %s to the caller as the reply of request %s: %r' % (o[3], rq.id, raw[:80]), 'malformed_reply_as_data')
+            elif raw not in good_texts.get(rq.id, ()):
+                return ('request %s holds %r, which is not a message the server sent with its message-id' % (rq.id, raw[:80]), 'reply_invented')
+    # (1) notifications: what take_notification returned and what is queued for it
+    qtag = '{%s}notification' % NOTIF
+    for key, o in sc.outcomes.items():
+        if o[0] == 'took' and o[1] is not None:
+            raw = _strip_decl(o[1])
+            if not wellformed(raw):
+                return ('take_notification returned a payload that is not well-formed XML: %r' % raw[:80], 'malformed_notification_delivered')
+            if raw not in good_notifs:
+                return ('take_notification returned %r, which the server did not send as a notification' % raw[:80], 'notification_invented')
+            if len(o) > 2 and o[2] != qtag:
+                return ('notification_ele of a delivered notification: %r instead of the <notification> element' % (o[2],), 'notification_ele_unusable')
+    for x in sc.nq_left:
+        if not wellformed(_strip_decl(x)):
+            return ('a payload that is not well-formed XML is queued for take_notification: %r' % x[:80], 'malformed_notification_queued')
+    if spec.get('eager') or sc.result == 'step-limit':
+        return None
+    # (2) error broadcasts as intervals of the global effect order; a client's close
+    bc, cur = [], None                      # (index of the start, index of the end, the error object broadcast)
+    for i, e in enumerate(effs):
+        if e[1] == 'errbcast': cur = (i, e[2])
+        elif e[1] == 'errbcast_end' and cur is not None: bc.append((cur[0], i, cur[1])); cur = None
+    if cur is not None: bc.append((cur[0], len(effs), cur[1]))
+    closed = next((i for i, e in enumerate(effs) if e[1] == 'close'), None)
+    start = {e[2]: i for i, e in enumerate(effs) if e[1] == 'opstart'}
+    def failure_explained(key, rq, o):
+        """the error a request ended with is one that was broadcast while the request existed, or the refusal of a send on a closed session"""
+        err = rq.error
+        if closed is not None and o[1] in ('TransportError', 'SessionCloseError'):
+            return True
+        return err is not None and any(x is err and end > start.get(key, 0) for _, end, x in bc)
+    for key, rq in sc.rpcs:
+        o = sc.outcomes.get(key)
+        if not o or o[0] != 'exc' or o[1] in ('TimeoutExpiredError', 'XMLSyntaxError'):
+            continue
+        if key not in start:
+            continue            # made after the scheduled run was over (a thread released by the harness at the end): not part of the history
+        if not failure_explained(key, rq, o):
+            return ('request %s failed with %s, which is neither an error broadcast while the request existed nor the refusal of a closed session: '
+                    'an earlier hostile message still decides the fate of a later request' % (rq.id, o[1]), 'later_request_failed')
+    alive = sc.connected_end and not sc.worker_done and closed is None and spec.get('wfail') is None
+    if alive and sc.result in ('finished', 'blocked') and not sc.sock.inb:
+        for key, rq in sc.rpcs:
+            o = sc.outcomes.get(key)
+            if rq.id not in good_replies or o is None:
+                continue
+            if o[0] == 'exc' and o[1] == 'TimeoutExpiredError' and rq.error is None:
+                di = next((i for i, e in enumerate(effs) if e[1] == 'dispatch' and _strip_decl(e[2]) in good_replies[rq.id]), None)
+                wi = next((i for i, e in enumerate(effs) if e[1] == 'waitres' and e[2] is getattr(rq, '_event', None)), None)
+                if di is not None and wi is not None and di < wi:
+                    return ('the session is alive and the valid reply for request %s was received before its wait ended, yet the request timed out' % rq.id, 'valid_reply_not_delivered')
     return None
 
 ORACLES = {'C03': oracle_c03, 'C04': oracle_c04, 'C11': oracle_c11, 'C14': oracle_c14}
@@ -310,6 +406,8 @@ def gen_spec(rng, pid):
         profile = rng.choice(['default', 'junos'])
         if rng.random() < 0.12:            # no loss at all: the server simply never answers some requests
             server = [a for a in server if a[0] == 'reply'][: max(0, nreq - 1)]; wf = None
+    elif pid == 'C14' and rng.random() < 0.5:
+        return gen_c14_history(rng)
     elif pid == 'C14':
         profile = rng.choice(['default', 'default', 'junos', 'sros', 'nexus'])
         answered = rng.sample(order, rng.randint(0, nreq))
@@ -354,10 +452,56 @@ def gen_spec(rng, pid):
         d['reseed'] = reseed
     return d
 
+def gen_c14_history(rng, profile=None):
+    """History 'hostile / malformed message, then later requests' on one session, any of the 14 profiles: some requests
+    are answered or outstanding, the server sends payloads that are not XML (HOSTILE texts, a malformed body behind a valid
+    <notification> / <rpc-reply> start tag), the client waits until they were consumed and makes NEW requests, which the
+    server answers; a consumer may take notifications."""
+    from .lts import HOSTILE, BADBODY
+    profile = profile or (rng.choice(weighted_profiles()) if rng.random() < 0.4 else rng.choice(PROFILES))
+    c0, server, k, nn = [], [], 0, 0
+    def hostile_item(outstanding):
+        r = rng.random()
+        if r < 0.55: return ('hostile', rng.randrange(len(HOSTILE)))
+        if r < 0.65: return ('nonxml',)
+        if r < 0.80: return ('notif_bad', 50 + rng.randrange(9), rng.randrange(len(BADBODY)))
+        if outstanding: return ('reply_bad', outstanding.pop(), rng.randrange(len(BADBODY)))
+        return ('hostile', rng.randrange(len(HOSTILE)))
+    outstanding = []
+    if rng.random() < 0.7:
+        c0.append(('rpc', True)); server.append(('reply', k)); k += 1
+    if rng.random() < 0.4 or not c0:
+        c0.append(('rpc', False)); outstanding.append(k); k += 1     # pipelined, unanswered while the hostile message arrives
+    if rng.random() < 0.3:
+        nn += 1; server.append(('notif', nn))
+    for _ in range(rng.choice([1, 1, 2])):
+        server.append(hostile_item(outstanding))
+    c0.append(('await_srv', len(server) - 1))
+    for _ in range(rng.choice([1, 1, 2])):
+        c0.append(('rpc', rng.random() < 0.8))
+        if rng.random() < 0.25: server.append(hostile_item(outstanding))
+        if rng.random() < 0.2:
+            nn += 1; server.append(('notif', nn))
+        server.append(('reply', k)); k += 1
+    if outstanding and rng.random() < 0.5:
+        server.append(('reply', outstanding.pop()))
+    clients = [c0]
+    if nn or any(a[0] == 'notif_bad' for a in server) or rng.random() < 0.2:
+        clients.append([('await_srv', len(server) - 1)] + [('take', False) for _ in range(nn + 1)] if rng.random() < 0.6 else [('take', True) for _ in range(nn + 1)])
+    d = dict(profile=profile, clients=clients, server=server, eager=False, base11=rng.random() < 0.6)
+    if profile == 'huawei' and rng.random() < 0.5: d['nulpad'] = True
+    if rng.random() < 0.3: d['decl'] = True
+    return d
+
 SMALL = {
     'C14': [dict(profile='default', base11=True, clients=[[('rpc', True)], [('rpc', False)]], server=[('reply', 0), ('garbage',)], eager=False),
             dict(profile='junos', base11=True, clients=[[('rpc', False), ('rpc', False)]], server=[('nonxml',), ('badutf8',)], eager=False),
-            dict(profile='default', base11=False, clients=[[('rpc', True)], [('rpc', True)]], server=[('nonxml',), ('reply', 1), ('reply_unknown',)], eager=False)],
+            dict(profile='default', base11=False, clients=[[('rpc', True)], [('rpc', True)]], server=[('nonxml',), ('reply', 1), ('reply_unknown',)], eager=False),
+            # hostile message (which a profile may turn into an error for the outstanding request), then a new request
+            dict(profile='junos', base11=False, clients=[[('rpc', True), ('await_srv', 1), ('rpc', True)], [('rpc', False)]], server=[('reply', 0), ('hostile', 0), ('reply', 2)], eager=False),
+            # malformed body behind a valid <notification> / <rpc-reply> start tag, with a consumer
+            dict(profile='default', base11=True, clients=[[('rpc', False), ('await_srv', 2), ('rpc', True)], [('take', True), ('take', True)]],
+                 server=[('notif', 1), ('reply_bad', 0, 1), ('notif_bad', 52, 0), ('reply', 1)], eager=False)],
     'C03': [dict(profile='default', clients=[[('rpc', True)], [('rpc', True)]], server=[('reply', 1), ('reply', 0)], eager=False),
             dict(profile='junos', clients=[[('rpc', False)], [('rpc', True)]], server=[('notif', 1), ('reply', 0), ('reply', 1)], eager=False),
             dict(profile='default', clients=[[('rpc', True)], [('rpc', True)]], server=[('reply', 0)], eager=True),
@@ -375,6 +519,45 @@ SMALL = {
             dict(profile='default', decl=True, clients=[[('take', True), ('rpc', True)], [('rpc', True)]], server=[('reply', 0), ('notif', 1), ('reply', 1)], eager=False),
             dict(profile='huawei', nulpad=True, clients=[[('rpc', True), ('take', False)]], server=[('notif', 1), ('reply', 0), ('notif', 2)], eager=False)],
 }
+
+def c14_sweep(quick=True):
+    """Deterministic part of the C14 histories: every profile x every hostile text x both framings (an answered and an
+    outstanding request before, a new request after), every malformed body behind a valid <notification> start tag
+    (with a consumer) and behind a valid <rpc-reply> start tag (synchronous and asynchronous caller), both framings."""
+    from .lts import HOSTILE, BADBODY
+    specs = []
+    for pi, prof in enumerate(PROFILES):
+        for v in range(len(HOSTILE)):
+            for b11 in (False, True):
+                if quick and (pi + v + b11) % 2 and prof not in weighted_profiles():
+                    continue
+                specs.append(dict(profile=prof, base11=b11, eager=False,
+                                  clients=[[('rpc', True), ('await_srv', 1), ('rpc', True), ('rpc', False)], [('rpc', False)]],
+                                  server=[('reply', 0), ('hostile', v), ('reply', 2), ('hostile', (v + 1) % len(HOSTILE)), ('reply', 3)]))
+    for v in range(len(BADBODY)):
+        for b11 in (False, True):
+            if quick and (v + b11) % 2:
+                continue
+            prof = PROFILES[(2 * v + b11) % len(PROFILES)]
+            specs.append(dict(profile=prof, base11=b11, eager=False,
+                              clients=[[('rpc', True), ('await_srv', 2), ('take', False), ('take', False), ('rpc', True)]],
+                              server=[('reply', 0), ('notif', 1), ('notif_bad', 50 + v, v), ('reply', 1)]))
+            specs.append(dict(profile=prof, base11=b11, eager=False,
+                              clients=[[('rpc', b11), ('await_srv', 0), ('rpc', True)], [('take', True)]],
+                              server=[('reply_bad', 0, v), ('reply', 1), ('notif', 1)]))
+    return specs
+
+_weighted = []
+def weighted_profiles():
+    """profiles whose class overrides what happens to a payload that cannot be parsed (more runs go to them)"""
+    if not _weighted:
+        from ncclient.manager import make_device_handler
+        from ncclient.devices.default import DefaultDeviceHandler
+        for p in PROFILES:
+            if type(make_device_handler({'name': p})).handle_raw_dispatch is not DefaultDeviceHandler.handle_raw_dispatch:
+                _weighted.append(p)
+        _weighted.append('default')
+    return _weighted
 
 def dfs_schedules(spec, bound, cap):
     """Depth-first enumeration of schedules with at most `bound` departures from the
@@ -512,6 +695,11 @@ def check(ctx, pid, n_random, dfs_bound, dfs_cap, corpus=(), model=None):
     for spec in SMALL[pid]:
         for sc in dfs_schedules(spec, dfs_bound, dfs_cap):
             runs.append(sc)
+    if pid == 'C14':
+        for spec in c14_sweep(ctx.tier == 'quick'):
+            runs.append(run_case(spec, decisions=[], rng_after=False))
+            if ctx.tier != 'quick':
+                runs.append(run_case(spec, seed=ctx.rng.randrange(1 << 30)))
     for i in range(n_random):
         spec = gen_spec(ctx.rng, pid)
         runs.append(run_case(spec, seed=ctx.rng.randrange(1 << 30)))
@@ -555,6 +743,11 @@ def search(ctx, pid, seeds, n=1500):
             f = oracle(sc)
             if f:
                 return dict(case=describe(sc.spec, sc.decisions_used), what=f[0], sig=None, expected='property %s' % pid, actual=f[0])
+    for spec in (c14_sweep(False) if pid == 'C14' else []):
+        sc = run_case(spec, decisions=[], rng_after=False)
+        f = oracle(sc)
+        if f:
+            return dict(case=describe(sc.spec, sc.decisions_used), what=f[0], sig=None, expected='property %s' % pid, actual=f[0])
     for spec in SMALL[pid]:
         for sc in dfs_schedules(spec, 3, 1200):
             f = oracle(sc)
